@@ -96,7 +96,7 @@ def attrs (σ : Sigma) : List (Str × Str) :=
 def rootAttr (σ : Sigma) (a : Args) (k : Str) : Option Str :=
   if k = S "odk:delimiter" ∧ (opt (σ (S "delimiter"))).isSome then opt (σ (S "delimiter"))
   else if k = S "odk:prefix" ∧ (opt (σ (S "prefix"))).isSome then opt (σ (S "prefix"))
-  else if k = S "version" ∧ txt (σ (S "version")) ≠ [] then some (txt (σ (S "version")))
+  else if k = S "version" ∧ (txt (σ (S "version"))).isEmpty = false then some (txt (σ (S "version")))
   else if k = S "xmlns" ∧ (opt (σ (S "instance_xmlns"))).isSome then opt (σ (S "instance_xmlns"))
   else if k = S "id" then some (idString σ a)
   else agetLast k (attrs σ)
@@ -106,12 +106,11 @@ def hasSubmission (σ : Sigma) : Bool :=
   (opt (σ (S "auto_send"))).isSome || (opt (σ (S "auto_delete"))).isSome
 
 def subAttr (σ : Sigma) (k : Str) : Option Str :=
-  if !hasSubmission σ then none
-  else if k = S "orx:auto-delete" then opt (σ (S "auto_delete"))
-  else if k = S "orx:auto-send" then opt (σ (S "auto_send"))
-  else if k = S "base64RsaPublicKey" then opt (σ (S "public_key"))
-  else if k = S "method" then (opt (σ (S "submission_url"))).map fun _ => S "post"
-  else if k = S "action" then opt (σ (S "submission_url"))
+  if k = S "orx:auto-delete" ∧ (opt (σ (S "auto_delete"))).isSome then opt (σ (S "auto_delete"))
+  else if k = S "orx:auto-send" ∧ (opt (σ (S "auto_send"))).isSome then opt (σ (S "auto_send"))
+  else if k = S "base64RsaPublicKey" ∧ (opt (σ (S "public_key"))).isSome then opt (σ (S "public_key"))
+  else if k = S "method" ∧ (opt (σ (S "submission_url"))).isSome then some (S "post")
+  else if k = S "action" ∧ (opt (σ (S "submission_url"))).isSome then opt (σ (S "submission_url"))
   else none
 
 /-- the declarations a `namespaces` cell asks for -/
